@@ -27,6 +27,10 @@ theorem PCM_detect_few (p : Packet) (buf : Bytes) (hl sw : Nat) (hsw : sw < 2 ^ 
   | [_] => simp
   | _ :: _ :: _ => rw [h] at ho; simp at ho; omega
 
+/-- fewer than two occurrences: the whole buffer is taken as one frame -/
+example : (0xFE6B2840 : Nat) < 2 ^ 32 ∧ (occ ([0, 0, 0, 0, 1, 2, 3, 4, 5, 6, 7, 8, 0, 0, 0xFE, 0x6B, 0x28, 0x40] : Bytes) (beBytes 4 0xFE6B2840)).length < 2 := by
+  decide
+
 /-- PCM decoding without a size hint recovers the minor-frame size from two consecutive sync words:
     for a packed-mode packet of frames of one word-aligned size `n` (`n` + header even, so no fill
     bytes), decoded by an object that knows only the sync word, if the sync word occurs first at the
@@ -83,5 +87,23 @@ example :
     occ (PCM_bytes p) (beBytes 4 DFLT_SYNC_WORD) = [14, 28] ∧
     (Packet.unpack (Packet.fresh (some 0) (some DFLT_SYNC_WORD) Option.none) (PCM_bytes p) false).1.mfsb = some 4 := by
   decide
+
+/-- (added by the rev2 review) ALL hypotheses of `PCM_size_from_sync` / `PCM_detect_two` together, for the packet of the
+    example above and a decoder that knows only the sync word -/
+example :
+    let f1 : Frame := ⟨.rtc 1, false, some 7, [0xFE, 0x6B, 0x28, 0x40], 0, Option.none, Option.none⟩
+    let f2 : Frame := ⟨.rtc 2, false, some 8, [0xFE, 0x6B, 0x28, 0x40], 0, Option.none, Option.none⟩
+    let p : Packet := ⟨0, some 0, some 4, Option.none, Option.none, [f1, f2]⟩
+    let t : Packet := Packet.fresh (some 0) (some DFLT_SYNC_WORD) Option.none
+    PCM_WF p 4 ∧ t.ipts_source = p.ipts_source ∧ t.assigned = Option.none ∧ t.syncword = some DFLT_SYNC_WORD ∧
+    DFLT_SYNC_WORD < 2 ^ 32 ∧ (4 + hdrLen ((p.channel_specific_word / MODE_ALIGNMENT) % 2)) % 2 = 0 ∧
+    occ (PCM_bytes p) (beBytes 4 DFLT_SYNC_WORD) =
+      [12 + hdrLen ((p.channel_specific_word / MODE_ALIGNMENT) % 2),
+       12 + hdrLen ((p.channel_specific_word / MODE_ALIGNMENT) % 2) + (4 + 8 + hdrLen ((p.channel_specific_word / MODE_ALIGNMENT) % 2))] := by
+  refine ⟨⟨by simp, by simp [MODE_THROUGHPUT], ?_⟩, rfl, rfl, rfl, by decide, by decide, by decide⟩
+  intro f hf
+  simp only [List.mem_cons, List.mem_nil_iff, or_false] at hf
+  rcases hf with h | h <;> subst h <;>
+    simp [Frame_WF, Frame.fresh, Ipts_WF, hdrLen, MODE_ALIGNMENT, pcmProto, sameKind, TS_CH4]
 
 end Acra.Props.C17
